@@ -790,7 +790,10 @@ def rule_pf(chk, w, g):
                          "class_A_sites": len([1 for _f, s, _k in sites if s["cls"] == "A"]),
                          "class_B_sites_inventoried_not_armed": len([1 for _f, s, _k in sites if s["cls"] == "B"])})
     used = set()
+    import pf_stable
+    pf_stable.extend(REVIEWED)
     for f, s, key in sites:
+        key = panics.resolve_key(REVIEWED, key, s)
         if s["cls"] != "A":
             continue
         loc = s["span"].loc()
